@@ -108,6 +108,7 @@ def run_job(job):
             max_paths=job.get("max_paths", 100000),
             want_models=job.get("validate_every", 1),
         )
+        eng.cut_on_undecided = bool(job.get("cut_on_undecided", False))
         funcs = set()
         state = {"first": True}
 
@@ -133,6 +134,9 @@ def run_job(job):
         deadline = job.get("deadline")
         results = eng.explore(harness, **args)
         out["paths"] = len(results)
+        nund = sum(1 for r in results if r.status == "cutoff" and "undecided" in (r.error or ""))
+        if nund > max(2, 0.02 * len(results)):
+            out["problems"].append({"kind": "too-many-undecided-branches", "error": "%d of %d paths cut because a feasibility query timed out" % (nund, len(results))})
         out["functions"] = sorted(funcs)
         out["solver_time"] = eng.solver_time
         out["queries"] = eng.queries
@@ -317,6 +321,9 @@ def main(mod):
                 if ar.ready():
                     try:
                         results.append(ar.get())
+                        if os.environ.get("VERIF_PROGRESS"):
+                            rr = results[-1]
+                            print("  [%6.0fs] %s: %d paths %.0fs %s" % (time.time() - t0, rr["label"], rr.get("paths", 0), rr.get("wall", 0), "PROBLEM" if rr.get("problems") or rr.get("failures") else ""), flush=True)
                     except Exception as ex:
                         results.append({"label": j["label"], "problems": [{"kind": "job-crash", "error": repr(ex)}], "paths": 0, "ok": 0, "vcs": 0, "vc_ok": 0, "failures": [], "canaries": {}, "validated": 0, "samples": [], "functions": [], "solver_time": 0, "queries": 0, "decisions": 0, "pruned": 0, "cut": 0, "wall": 0, "optional": j.get("optional", False)})
                 else:
